@@ -69,13 +69,18 @@ func (a *analyzer) run(pass *analysis.Pass) (any, error) {
 			}
 
 			if n.Doc != nil && len(n.Doc.List) > 0 {
-				collectTypeMarkers(pass, n, results)
+				collectTypeMarkers(pass, n.Doc, n.Specs, results)
 			}
 
 			for _, spec := range n.Specs {
 				ts, ok := spec.(*ast.TypeSpec)
 				if !ok {
 					continue
+				}
+
+				// Inside a grouped declaration `type ( ... )` each spec carries its own doc comment.
+				if ts.Doc != nil && len(ts.Doc.List) > 0 {
+					collectTypeMarkers(pass, ts.Doc, []ast.Spec{ts}, results)
 				}
 
 				st, ok := ts.Type.(*ast.StructType)
@@ -92,13 +97,14 @@ func (a *analyzer) run(pass *analysis.Pass) (any, error) {
 	return results, nil
 }
 
-// collectTypeMarkers collects markers from a GenDecl node and adds them to the results.
-func collectTypeMarkers(pass *analysis.Pass, genDecl *ast.GenDecl, results *markers) {
-	if genDecl.Doc == nil || len(genDecl.Doc.List) == 0 {
+// collectTypeMarkers collects markers from the doc comment of a type declaration (or of one spec of a
+// grouped declaration) and adds them to the results of the given specs.
+func collectTypeMarkers(pass *analysis.Pass, docGroup *ast.CommentGroup, specs []ast.Spec, results *markers) {
+	if docGroup == nil || len(docGroup.List) == 0 {
 		return
 	}
 
-	for _, doc := range genDecl.Doc.List {
+	for _, doc := range docGroup.List {
 		pos := pass.Fset.Position(doc.Pos())
 		markerContent, ok := parseMarkerComment(doc.Text, pos.Filename, pos.Line)
 
@@ -112,7 +118,7 @@ func collectTypeMarkers(pass *analysis.Pass, genDecl *ast.GenDecl, results *mark
 			Expressions: expressions,
 		}
 
-		for _, spec := range genDecl.Specs {
+		for _, spec := range specs {
 			if ts, ok := spec.(*ast.TypeSpec); ok {
 				results.insertTypeMarker(ts, marker)
 
